@@ -138,9 +138,9 @@ func checkC07() *rtCheck {
 func checkC14() *rtCheck {
 	return &rtCheck{
 		Prop: "C14",
-		Rule: "the boundary probes of C04 (valid and invalid requests through the generated client and hand-encoded, malformed encodings) plus declared errors of C05 are exchanged with the generated server; every exact wire request is also judged by kin-openapi's openapi3filter against the operation of the generated openapi3.json; the two decisions must agree; success and declared-error responses must conform to the documented response of their status. non-trivial = exchange judged by both sides; distinct = (feature signature, method, probe class, shape)",
-		Assume: []string{"the schema evaluator is kin-openapi openapi3filter (independent of goa); the lab's own evaluator planned in DESIGN is not built: disagreements are therefore decided by one independent judge",
-			"numeric exclusive bounds (a listed C07 finding) are rewritten into the OpenAPI 3.0 form before loading so that the rest of the document can be judged",
+		Rule: "the boundary probes of C04 (valid and invalid requests through the generated client and hand-encoded, malformed encodings) plus declared errors of C05 are exchanged with the generated server; every exact wire request is judged against the operation of the generated openapi3.json by the lab's own evaluator of the OpenAPI-3.0 subset goa emits (oracle/oaeval.go, oajudge.go: path matching, parameter styles, JSON schema keywords incl. draft-4 exclusive bounds, anyOf, nullable, formats by construction class); schema verdict and server verdict must agree; success and declared-error responses must conform to the documented response of their status. kin-openapi's openapi3filter judges the same requests as a counted cross-check (its agreement rate is reported, it does not decide). non-trivial = exchange judged by both sides; distinct = (feature signature, method, probe class, shape)",
+		Assume: []string{"the deciding schema evaluator is the lab's own (independent of goa); kin-openapi mis-parses integer enums in parameters and 64-bit integers, so it only cross-checks",
+			"array headers are judged under both readings (comma split and one value per line)",
 			"JSON bodies only; authorization is not a schema matter"},
 		Profiles: validationProfiles, Specs: [2]int{32, 500}, PerMethod: [2]int{30, 140},
 		MkCases: func(sp *spec.Spec, sv *spec.Service, m *spec.Method, r *vc.Rand, n, start int) []*rt.Case {
